@@ -1086,7 +1086,8 @@ func (mc *Chain) VerifyRoundBlock(ctx context.Context, r round.RoundI, b *block.
 
 func (mc *Chain) updatePriorBlock(r round.RoundI, b *block.Block) {
 	pb := b.PrevBlock
-	mc.MergeVerificationTickets(pb, b.GetPrevBlockVerificationTickets())
+	// the previous-block tickets carried by a proposal are merged by updatePreviousBlockNotarization
+	// after they have been verified; merging them here unverified let forged tickets notarize pb
 	pr := mc.GetMinerRound(pb.Round)
 	if pr == nil {
 		logging.Logger.Error("update prior block - previous round not present",
